@@ -582,7 +582,8 @@ def check_property(prop, jobs, tier, level, explanation, trusted, seed=0, quiet=
             unw = [o for o in failed if ".unwind." in o[0] or ".recursion" in o[0]]
             if unw:
                 errors.append("%s: unwinding bound too small for %s (undecided, not a violation)" % (j.name, ", ".join(sorted(set(o[0] for o in unw)))[:300]))
-                failed = []   # beyond a failed unwinding assertion nothing is decided
+                # other FAILUREs keep their own complete counterexample traces (paths beyond a bound are cut), so they stay violations
+                failed = [o for o in failed if o not in unw]
             nobody = [o for o in failed if ".no-body." in o[0]]
             if nobody:
                 errors.append("%s: harness links no body for %s" % (j.name, ", ".join(sorted(set(o[0].split(".no-body.")[1] for o in nobody)))))
@@ -624,12 +625,20 @@ def check_property(prop, jobs, tier, level, explanation, trusted, seed=0, quiet=
                     cs = [(d, s) for (n, d, s) in c.obligations if d.startswith("COVER")]
                     if not cs:
                         errors.append("%s: no reachability witness in harness" % j.name)
+                    any_hit = any(s == "FAILURE" for d, s in cs)
                     for d, s in cs:
+                        if d.startswith("COVER ALT"):
+                            continue
                         cover_total += 1
                         if s == "FAILURE":
                             cover_hit += 1
                         else:
                             errors.append("%s: vacuous - witness not reachable: %s" % (j.name, d))
+                    if cs and not any_hit:
+                        errors.append("%s: vacuous - no reachability witness reached" % j.name)
+                    elif cs and all(d.startswith("COVER ALT") for d, s in cs):
+                        cover_total += 1
+                        cover_hit += 1
         wall = time.time() - t0
         # ---- report
         for (jn, key, what) in known_hits:
